@@ -317,6 +317,9 @@ pub struct BridgeCase {
     pub crlf: bool,
     pub trailing: Vec<u8>,
     pub bus: BusBehaviour,
+    /// the line has no terminator at all and the stream ends after it (read() returns Ok(0)): it is still a line
+    #[serde(default)]
+    pub unterminated: bool,
 }
 
 struct RecBus {
@@ -336,9 +339,15 @@ impl SignBus for RecBus {
 
 pub fn check_bridge(c: &BridgeCase, st: &mut Stats) -> Result<(), String> {
     let mut tape: Vec<u8> = c.line.iter().copied().filter(|&b| b != b'\n').collect();
-    tape.extend_from_slice(if c.crlf { b"\r\n" } else { b"\n" });
+    let unterminated = c.unterminated && c.trailing.is_empty();
+    if !unterminated {
+        tape.extend_from_slice(if c.crlf { b"\r\n" } else { b"\n" });
+    }
     let line_end = tape.len();
     tape.extend_from_slice(&c.trailing);
+    if unterminated {
+        st.class("bridge:unterminated-last-line");
+    }
     let port = TestPort::with_state(PortState::new(tape.clone()));
     let h = port.handle();
     let seen = Rc::new(RefCell::new(vec![]));
@@ -430,6 +439,10 @@ pub struct BridgeSession {
     /// every n-th read() call of the port reports ErrorKind::Interrupted (which a reader has to retry)
     #[serde(default)]
     pub interrupt_every: Option<u8>,
+    /// the port refuses the write of reply number k (0-based) of the session; that call fails, and nothing of that
+    /// reply may show up later
+    #[serde(default)]
+    pub write_fails_at_reply: Option<u8>,
 }
 
 struct ScriptedRecBus {
@@ -460,10 +473,16 @@ pub fn check_bridge_session(c: &BridgeSession, st: &mut Stats) -> Result<(), Str
         let n = n.max(2) as usize;
         pstate.read_script = (0..6000).map(|i| if i % n == n - 1 { crate::io::port::ReadStep::Interrupted } else { crate::io::port::ReadStep::Serve(3) }).collect();
     }
+    if let Some(k) = c.write_fails_at_reply {
+        let mut script = vec![crate::io::port::WriteStep::Accept(usize::MAX); k as usize];
+        script.push(crate::io::port::WriteStep::Error(io::ErrorKind::BrokenPipe));
+        pstate.write_script = script;
+    }
     let port = TestPort::with_state(pstate);
     let h = port.handle();
     let seen = Rc::new(RefCell::new(vec![]));
     let behaviours = Rc::new(RefCell::new(VecDeque::new()));
+    let mut replies_written = 0usize;
     let mut odk = Odk::try_new(port, ScriptedRecBus { seen: seen.clone(), behaviours: behaviours.clone() }).map_err(|e| format!("Odk::try_new failed: {e}"))?;
     let mut start = 0usize;
     let mut want_written: Vec<u8> = vec![];
@@ -494,7 +513,16 @@ pub fn check_bridge_session(c: &BridgeSession, st: &mut Stats) -> Result<(), Str
                     ));
                 }
                 match behaviour {
+                    BusBehaviour::Reply(m) if c.write_fails_at_reply.map(|k| k as usize) == Some(replies_written) => {
+                        // the port refuses this reply: the call fails, nothing is written, and the reply is gone
+                        replies_written += 1;
+                        if r.is_ok() {
+                            return Err(format!("line {i}: the port refused the reply {} but the bridge returned Ok{note}", m.short()));
+                        }
+                        st.class("bridge-session:reply-write-refused");
+                    }
                     BusBehaviour::Reply(m) => {
+                        replies_written += 1;
                         want_written.extend_from_slice(&wire_of(m));
                         want_written.extend_from_slice(b"\r\n");
                         if r.is_err() {
@@ -565,7 +593,7 @@ fn bridge_session_strategy() -> impl Strategy<Value = BridgeSession> {
     // relation between neighbouring lines: 0 = as generated, 1 = the line is the wire form of the reply the bus just gave
     // (an echo of the bridge's own output, or a sign-type frame from another device), 2 = the previous line again
     let relation = prop_oneof![6 => Just(0u8), 2 => Just(1u8), 1 => Just(2u8)];
-    (proptest::collection::vec((line, bus, relation), 1..=6), prop_oneof![3 => Just(None), 1 => (2u8..9).prop_map(Some)]).prop_map(|(raw, interrupt_every)| {
+    (proptest::collection::vec((line, bus, relation), 1..=6), prop_oneof![3 => Just(None), 1 => (2u8..9).prop_map(Some)], prop_oneof![4 => Just(None), 1 => (0u8..3).prop_map(Some)]).prop_map(|(raw, interrupt_every, write_fails_at_reply)| {
         let mut lines: Vec<(Vec<u8>, BusBehaviour)> = vec![];
         for (l, b, rel) in raw {
             let l = match (rel, lines.last()) {
@@ -575,7 +603,7 @@ fn bridge_session_strategy() -> impl Strategy<Value = BridgeSession> {
             };
             lines.push((l, b));
         }
-        BridgeSession { lines, interrupt_every }
+        BridgeSession { lines, interrupt_every, write_fails_at_reply }
     })
 }
 
@@ -634,8 +662,8 @@ fn bridge_strategy() -> impl Strategy<Value = BridgeCase> {
         3 => Just(BusBehaviour::Silent),
         2 => Just(BusBehaviour::Fail),
     ];
-    (line, prop_oneof![5 => Just(true), 1 => Just(false)], prop_oneof![3 => Just(vec![]), 1 => proptest::collection::vec(any::<u8>(), 0..6)], bus)
-        .prop_map(|(line, crlf, trailing, bus)| BridgeCase { line, crlf, trailing, bus })
+    (line, prop_oneof![5 => Just(true), 1 => Just(false)], prop_oneof![3 => Just(vec![]), 1 => proptest::collection::vec(any::<u8>(), 0..6)], bus, prop_oneof![6 => Just(false), 1 => Just(true)])
+        .prop_map(|(line, crlf, trailing, bus, unterminated)| BridgeCase { line, crlf, trailing, bus, unterminated })
 }
 
 pub fn run(ctx: &Ctx) {
